@@ -99,6 +99,8 @@ type Machine struct {
 	ufInj       map[string][]T
 	onceDone    map[Ptr]bool
 	hashAcc     map[Ptr][]T
+	hashTainted map[Ptr]bool
+	taintSeq    int
 	typeHandles map[string]*Opaque
 	embedsDone  map[*ssa.Package]bool
 	ufApps      map[string][]ufApp
@@ -106,6 +108,8 @@ type Machine struct {
 	lastH       int
 	lastHSet    bool
 	deadline    time.Time
+	sumCache    map[string][]*sumEntry
+	sumCacheN   int
 	curFn       string // racy debug info: function currently interpreted
 	scope       *sumScope
 
